@@ -123,6 +123,8 @@ func TestVerifE5Replay(t *testing.T) {
 		vfE5ReplayDoubleDelete(t, name)
 	case "chan_double_delete_unlinks_fresh", "chan_double_delete_waits":
 		vfE5ReplayChanDoubleDelete(t, name)
+	case "exit_races_new_topic_publish":
+		vfE5ReplayExitNewTopic(t, name)
 	case "sync_every_zero_delete", "sync_every_negative_delete", "sync_every_one_delete":
 		vfE5ReplaySyncEvery(t, name)
 	case "topic_delete_races_sub", "topic_delete_races_sub_early", "topic_delete_races_create_channel":
@@ -1486,4 +1488,55 @@ func vfE5ReplaySyncEvery(t *testing.T, name string) {
 	re := n.GetTopic("tz").GetChannel("c")
 	fmt.Printf("E5REPLAY %s new_refused=false sync_every=%d depth_before=%d delete_chan=%s delete_topic=%s chan_files_left=%s topic_files_left=%s recreated_depth=%d\n",
 		name, opts.SyncEvery, depth, d1, d2, strings.Join(chanLeft, ","), strings.Join(topicLeft, ","), re.Depth()+n.GetTopic("tz").Depth())
+}
+
+// audit-A A1: a publish to a topic that does not exist yet while NSQD.Exit is closing the topics.  Exit is
+// parked at topic.exit.beforeFlush (it holds the NSQD lock and is closing topic "old"); a publisher calls
+// GetTopic("fresh") - it waits for the lock - and PutMessage.  After Exit's loop nobody closes or flushes
+// "fresh": the acknowledged message sits in the memory queue of a topic that is never flushed.
+func vfE5ReplayExitNewTopic(t *testing.T, name string) {
+	dir := t.TempDir()
+	opts := vfE5Opts(dir)
+	opts.MemQueueSize = 10
+	n, err := New(opts)
+	if err != nil {
+		t.Fatal(err)
+	}
+	n.LoadMetadata()
+	n.PersistMetadata()
+	go n.Main()
+	old := n.GetTopic("old")
+	old.GetChannel("c")
+	old.PutMessage(NewMessage(old.GenerateID(), []byte("m-old")))
+	g := vfE5NewGate("topic.exit.beforeFlush")
+	exitDone := make(chan string, 1)
+	go func() { exitDone <- vfE5Try(20*time.Second, func() { n.Exit() }) }()
+	g.wait(t)
+	type pubRes struct {
+		acked   bool
+		exiting bool
+	}
+	pub := make(chan pubRes, 1)
+	go func() {
+		tp := n.GetTopic("fresh") // blocks until Exit releases the NSQD lock
+		err := tp.PutMessage(NewMessage(tp.GenerateID(), []byte("m-fresh")))
+		pub <- pubRes{err == nil, tp.Exiting()}
+	}()
+	time.Sleep(100 * time.Millisecond)
+	close(g.release)
+	exit := <-exitDone
+	var pr pubRes
+	select {
+	case pr = <-pub:
+	case <-time.After(5 * time.Second):
+		fmt.Printf("E5REPLAY %s exit=%s publish=blocked\n", name, exit)
+		return
+	}
+	time.Sleep(50 * time.Millisecond)
+	n2 := vfE5Restart(t, opts, dir)
+	depth := vfE5TotalDepth(n2, "fresh")
+	oldDepth := vfE5TotalDepth(n2, "old", "c")
+	fmt.Printf("E5REPLAY %s exit=%s publish=done acked=%v topic_handed_out_exiting=%v fresh_depth_after_restart=%d old_depth_after_restart=%d lost=%v\n",
+		name, exit, pr.acked, pr.exiting, depth, oldDepth, pr.acked && depth < 1)
+	n2.Exit()
 }
